@@ -18,7 +18,7 @@ import common         # noqa: E402
 ALL_MSGS = ["OPEN", "OPENBADVER", "OPENBADAS", "OPENSHORT", "KA", "KABODY", "UPD", "UPDBAD", "NOTIFVER", "NOTIF",
             "NOTIFSHORT", "RR", "RRBAD", "BADMARKER", "BADLEN", "BADLENSMALL", "BADTYPE"]
 BASE = dict(CRT=2, HOLDCFG=60, IDLEHOLD=2, LARGEHOLD=24, TCPTO=3, MAXLIVE=2, PEERHOLDS=[0, 1, 30, 90],
-            TICKNUM=10, TICKDEN=1, CNTCAP=0, MSGS=ALL_MSGS)
+            TICKNUM=10, TICKDEN=1, CNTCAP=0, MSGS=ALL_MSGS, RESTS=[])
 
 
 def consts(**kw):
@@ -199,8 +199,9 @@ def _scen_work(args):
 def run_scenarios(kind, tier, seed, workdir, procs=16):
     """C05 / C10 scenario drivers -> ndjson of recorded traces (tids from 20,000,000)."""
     if kind == 'C05':
-        import random
         jobs = _c05_jobs(tier, seed)
+    elif kind == 'C16':
+        jobs = _in_child(_mk_c16, tier, seed)
     else:
         jobs = _c10_jobs(tier, seed)
     items = [(20000000 + i, j) for i, j in enumerate(jobs)]
@@ -238,6 +239,11 @@ def _mk_c10(tier, seed):
                 continue
             jobs.append(('c10', wcfg, state, cls, data))
     return jobs
+
+
+def _mk_c16(tier, seed):
+    import scenarios
+    return scenarios.c16_jobs(tier, seed)
 
 
 def _c05_jobs(tier, seed):
